@@ -35,7 +35,7 @@ STYLES = ("rest", "google", "numpydoc")
 
 def probes():
     return ["partial_doc_with_2plus_undocumented", "permuted_doc", "import_inference_cmd", "gen_prepend_cmd", "exmod_cmd",
-            "gen_infer_mixed_kinds", "gen_directory_cmd", "exmod_two_subpackages", "exmod_names_differing_in_case", "merge_all_lists_op", "same_path_same_stat_edit", "nameless_interface_emitted", "rest_doc_with_google_token", "ambiguous_symbol_any", "openapi_emit_ops", "gen_phase1_multi_fk", "docstring_with_footer",
+            "gen_infer_mixed_kinds", "gen_directory_cmd", "exmod_two_subpackages", "exmod_names_differing_in_case", "merge_all_lists_op", "json_schema_parse_ops", "same_path_same_stat_edit", "nameless_interface_emitted", "rest_doc_with_google_token", "ambiguous_symbol_any", "openapi_emit_ops", "gen_phase1_multi_fk", "docstring_with_footer",
             "sync_cmd", "doctrans_cmd", "openapi_cmd", "repeated_occurrences", "ops_ok_somewhere"]
 
 
@@ -152,6 +152,32 @@ def build_T(rng, n_parse, n_emit, n_cmd):
         if rng.random() < 0.2:
             add({"kind": "parse_docstring_emit", "text": "\n".join(gen.render_docstring_lines(spec, rng.choice(STYLES))),
                  "emitter": rng.choice(("json_schema", "argparse_function", "class_", "sqlalchemy", "docstring")), "opts": {}})
+    for _ in range(max(2, n_parse // 6)):
+        # JSON-schema documents: properties in a seeded order (optional ones before required ones too), `required` listed
+        # in another seeded order - the parameter order read out of them must be the document's
+        spec = _spec(rng, rng.choice(gen.CLASS_NAMES), 3, 6)
+        props = {}
+        order = list(spec["params"])
+        rng.shuffle(order)
+        for q in order:
+            d = {"description": q["doc"], "type": {"int": "integer", "float": "number", "str": "string",
+                                                    "bool": "boolean"}.get(q["typ"], "string")}
+            if q["default"] not in (None, "None"):
+                try:
+                    d["default"] = json.loads(json.dumps(eval(q["default"], {})))
+                except Exception:
+                    pass
+            props[q["name"]] = d
+        required = [q["name"] for q in spec["params"] if q["default"] is None]
+        rng.shuffle(required)
+        doc = {"$id": "https://example.com/%s.schema.json" % spec["name"].lower(),
+               "$schema": "https://json-schema.org/draft/2020-12/schema", "description": spec["doc"], "type": "object",
+               "properties": props, "required": required}
+        src = json.dumps(doc, indent=2)
+        add({"kind": "parse_source", "parser": "json_schema", "source": src})
+        add({"kind": "parse_emit", "parser": "json_schema", "source": src,
+             "emitter": rng.choice(("class_", "function", "argparse_function", "sqlalchemy", "docstring")), "opts": {}})
+        pr["json_schema_parse_ops"] = pr.get("json_schema_parse_ops", 0) + 1
     for _ in range(max(2, n_parse // 8)):
         # two modules whose __all__ lists get merged (what gen and exmod do when a file already exists): names that
         # coincide, that differ only in case, that start with an underscore or a digit-like suffix
